@@ -142,6 +142,9 @@ def _job(args):
 
 
 def classify(tr):
+    if any(e['ev'] == 'ProbeEnd' for e in tr['events']):
+        return 'real LaunchMethod.cancel_task on real processes (new_session_per_task=%s)' % \
+               tr['events'][-1].get('new_session')
     return 'popen executor, scenario faults=%s cancels=%d timeouts=%d' % (
         ','.join(sorted(set(s['fault'] for s in tr['spec'].values()))),
         len(tr['named']), sum(1 for s in tr['spec'].values() if s['timeout']))
@@ -184,6 +187,7 @@ def run(chk, tier, seed):
             chk.notes.append('deviation %s: %s' % (dev, res.violated or 'tolerated by the design'))
 
     # ---- 2. TLC behaviours as schedules ----------------------------------------
+    traces, meta = [], []
     jobs = []
     nsim = 60 if quick else 600
     for name, tasks, cancels in SCENARIOS[:11] + SCENARIOS[12:]:
@@ -214,7 +218,6 @@ def run(chk, tier, seed):
         pool.close()
         pool.join()
 
-    traces, meta = [], []
     nruns = 0
     for (kind, name, n, uniq), job in zip(results, jobs):
         nruns += n
@@ -225,6 +228,25 @@ def run(chk, tier, seed):
             meta.append({'kind': kind, 'scenario': name, 'tasks': job[2], 'cancels': job[3],
                          'bulks': BULKS.get(name)})
     chk.evaluations = nruns
+
+    # ---- 3b. kill probe: the real LaunchMethod.cancel_task on real processes ----------
+    import subprocess, json as _json
+    probe = os.path.join(os.path.dirname(os.path.dirname(os.path.abspath(__file__))), 'rigs', 'kill_probe.py')
+    for ns in (1, 0):
+        for n in (2, 3):
+            p = subprocess.run(['/venv/bin/python', probe, str(ns), str(n)], start_new_session=True,
+                               stdout=subprocess.PIPE, stderr=subprocess.PIPE, timeout=120,
+                               env=dict(os.environ))
+            lines = [x for x in p.stdout.decode('utf-8', 'replace').strip().split('\n') if x.startswith('{')]
+            if not lines:
+                raise Machinery('kill probe gave no result: rc=%s %s' % (p.returncode, p.stderr.decode()[-500:]))
+            pr = _json.loads(lines[-1])
+            uids = pr.get('uids') or ['t1']
+            tr = {'uids': uids, 'spec': {u: {'exit': '0', 'fault': 'none', 'timeout': 0} for u in uids},
+                  'named': [uids[0]], 'events': pr['events'], 'schedule': []}
+            traces.append(tr)
+            meta.append({'kind': 'killprobe', 'scenario': 'killprobe-ns%d-n%d' % (ns, n), 'tasks': [],
+                         'cancels': [], 'bulks': None, 'probe': [ns, n]})
 
     # ---- 4. monitor ----------------------------------------------------------------
     res, st = tracecheck.validate('Executor', 'ExecutorTrace', 'Dummy = 0' if False else '',
